@@ -4,6 +4,7 @@ import Logrange.Model.WireFields
 import Logrange.Model.EscapeJson
 import Logrange.Model.PosStr
 import Logrange.Model.Nesting
+import Logrange.Model.Format
 import Logrange.Generated.C13
 /-! Model driver for C13 (decoders, escaper, positions, field lists). Byte strings are hex (`-` = empty). Requests:
 
@@ -17,7 +18,9 @@ import Logrange.Generated.C13
 * `escjson <s>` → `ok <out>` | `fuel` | `panic`
 * `pos <s>` → `ok <cid> <idx>` | `err` | `panic`;  `statepos <s>` → `ok <jrnl>=<cid>.<idx>…` | `err` | `panic`
 * `f.value <fields> <name>` · `f.items <fields>` · `f.check <fields>` · `f.build (<part> <trimmed> <unquoted|!|=>)*`
-* `nest <budget> <text>` → `ok <depth>` | `panic` (stack budget exhausted)
+* `nest <budget> <text>` → `ok <depth>` | `err` (refused by the nesting guard, when /repo has one) | `panic` (stack budget exhausted)
+* `fmt.parse <fstr>` → `ok <field>…` (`ts:<layout>` `msg:<arg>` `var:<name>` `vars` `const:<text>`) | `err` | `panic`; `strings.ToLower`
+  is ASCII lower-casing here (the harness only compares format strings on which the two agree)
 -/
 open Go Logrange Logrange.Wire Driver
 
@@ -145,8 +148,16 @@ def step (_ : Unit) (toks : List String) : Unit × String :=
      | some f => "ok " ++ hex f
      | none => "err")
   | ["nest", budget, s] =>
-    (match Nesting.parse budget.toNat! (unhex s) with
+    (match Nesting.parseNow budget.toNat! (unhex s) with
      | .ok d => s!"ok {d}"
+     | .err => "err"
+     | .panic _ => "panic"
+     | .outOfFuel => "fuel")
+  | ["fmt.parse", f] =>
+    let lower : Bytes → Bytes := fun b => b.map fun c => if 65 ≤ c.toNat ∧ c.toNat ≤ 90 then UInt8.ofNat (c.toNat + 32) else c
+    (match Format.parse lower (unhex f) with
+     | .ok fs => ("ok " ++ " ".intercalate (fs.map fun x => match x with
+         | .ts l => "ts:" ++ hex l | .msg j => "msg:" ++ hex j | .var n => "var:" ++ hex n | .vars => "vars" | .const c => "const:" ++ hex c)).trimAscii.toString
      | .err => "err"
      | .panic _ => "panic"
      | .outOfFuel => "fuel")
